@@ -549,8 +549,24 @@ def _without(base, attr):
     return None, None
 
 
-def check_required(modname, op, attr, base_name=None, objs=None):
-    """dump with `attr` None must raise PrepareDumpError before the output file is opened"""
+ITERABLES = ["list", "tuple", "generator", "iterator", "map"]
+
+
+def _as_iterable(kind, frames):
+    if kind == "list":
+        return list(frames)
+    if kind == "tuple":
+        return tuple(frames)
+    if kind == "generator":
+        return (f for f in frames)
+    if kind == "iterator":
+        return iter(list(frames))
+    return map(lambda f: f, frames)
+
+
+def check_required(modname, op, attr, base_name=None, objs=None, iterable="list"):
+    """dump with `attr` None must raise PrepareDumpError before the output file is opened (for dump_many: whatever
+    kind of iterable delivers the frames)"""
     import builtins
 
     from iodata import api
@@ -585,7 +601,7 @@ def check_required(modname, op, attr, base_name=None, objs=None):
                 if op == "dump_one":
                     api.dump_one(obj, target, fmt=modname)
                 else:
-                    api.dump_many([obj], target, fmt=modname)
+                    api.dump_many(_as_iterable(iterable, [obj, obj]), target, fmt=modname)
             outcome = "no-exception"
         except PrepareDumpError:
             outcome = "PrepareDumpError"
@@ -594,7 +610,7 @@ def check_required(modname, op, attr, base_name=None, objs=None):
         finally:
             builtins.open = orig_open
         content = orig_open(target).read()
-    sig = f"required-not-enforced:{modname}.{op}:{attr}"
+    sig = f"required-not-enforced:{modname}.{op}:{attr}" + ("" if iterable == "list" else f":{iterable}")
     if outcome != "PrepareDumpError":
         return "bad", (sig, f"{modname}.{op} with {attr}=None (object from {bname}, dropped {dropped}) ended with {outcome} instead of PrepareDumpError"), bname
     if opened or content != "SENTINEL":
@@ -670,6 +686,13 @@ def search(ctx):
                 ctx.count("search-required", [modname, op, attr], f"{modname}.{op}/{status}", nontrivial=status in ("ok", "bad"))
                 if bad:
                     ctx.fail(bad[0], bad[1], {"kind": "required", "module": modname, "op": op, "attr": attr, "base": bname})
+                if op == "dump_many":
+                    for it in ITERABLES[1:]:
+                        status, bad, bname = check_required(modname, op, attr, objs=objs, iterable=it)
+                        ctx.count("search-required", [modname, op, attr, it], f"{modname}.{op}/{it}/{status}", nontrivial=status in ("ok", "bad"))
+                        if bad:
+                            ctx.fail(bad[0], bad[1], {"kind": "required", "module": modname, "op": op, "attr": attr, "base": bname,
+                                                      "iterable": it})
 
 
 def _replay_mutant(inp):
@@ -690,6 +713,6 @@ def replay(ctx, obj):
                 return True
         return False
     if inp["kind"] == "required":
-        status, bad, _ = check_required(inp["module"], inp["op"], inp["attr"], base_name=inp.get("base"))
+        status, bad, _ = check_required(inp["module"], inp["op"], inp["attr"], base_name=inp.get("base"), iterable=inp.get("iterable", "list"))
         return bad is not None
     return True
